@@ -90,7 +90,7 @@ REGISTRY = {
                      "and 44 (read A blocked on a late piece, read B) cases run on a real FUSE handle. A torrent of 4 GiB + 3 MiB (sparse hashes) is read across and beyond offset 2^32 through the store, a Reader, an HTTP Range request and a FUSE read.",
             "note": _LIVE},
     "C05": {"run": p_peerfsm.run, "design": "DESIGN.md section 3 C05",
-            "technique": "TLC model checking of PeerFsm.tla + every (state class x message class) edge and random message sequences executed on peer.handleMessage and tor.handleEvent with crash/hang/allocation monitors",
+            "technique": "TLC model checking of PeerFsm.tla + every (state class x message class) edge and random message sequences executed on peer.handleMessage and tor.handleEvent with crash/hang/allocation monitors + the Sched.tla behaviours under the same monitors + every bencoded payload class of Framing.tla sent well-framed to a live peer.Run",
             "level": "PeerFsm.tla predicts accept/disconnect for ~170 message classes (boundary indexes 0, last, n, 2^30, 2^32-1; offsets; lengths; payload sizes; "
                      "extended handshakes; metadata, PEX) in every capability/metadata state; every edge of its graph and random sequences are concretised and "
                      "handled by the real peer handler in that state, the resulting events by the real torrent handler; panics, non-termination and allocation "
@@ -120,7 +120,8 @@ REGISTRY = {
                      "quiescent point inFlight and available are compared with what the peers really hold/advertise, in Go and again by TLC. "
                      "Mailbox.tla (bounded torrent mailbox, private backlog, idle peer flushes at once; Ordered, AllArrive) is model-checked and bound to a real "
                      "peer.Run over net.Pipe held at the writeEvent yield point: every <= 12-step schedule on which the deviation mailbox_first reorders, and "
-                     "simulated complete runs, are replayed and the availability must be zero once the peer has left.",
+                     "simulated complete runs, are replayed and the availability must be zero once the peer has left. GenSchedDev.tla enumerates one schedule per bad state "
+                     "of Sched.tla under the deviations late_dup_silent / choke_forgets_fast (warm start, <= 10 steps); they are replayed with the other behaviours.",
             "note": "Trusted: TLC, the stepping shims (export_verif files), fakepeer. Go select races other than the mailbox hand-over are outside this binding."},
     "C15": {"run": p_tracker.run, "design": "DESIGN.md section 3 C15",
             "technique": "TLC exhaustive model checking of Tracker.tla / UdpExchange.tla + replay of every edge / every reply sequence on the real tracker code against scripted local trackers",
